@@ -10,7 +10,7 @@ def run(tier, work):
     thorough = tier == "thorough"
     if "--replay" in sys.argv:
         path = os.path.abspath(sys.argv[sys.argv.index("--replay") + 1])
-        if vlib.read_ndjson_head(path, 1)[0].get("mode") == "poolread":
+        if vlib.read_ndjson_head(path, 1)[0].get("mode") in ("poolread", "readbusy"):
             return storelib.replay_file("C08", path, work)
         res = storelib.validate(work, path, "replay", module="ReadBufferTrace", cfg="ReadBufferTrace.cfg")
         for x in res["viol"]:
@@ -29,11 +29,17 @@ def run(tier, work):
     tf2 = os.path.join(out2, "store_poolreads.ndjson")
     res2 = storelib.validate(work, tf2, "poolreads")
     storelib.report(v, work, "C08", tf2, res2)
+    # cache level: rings fill while somebody else holds the policy lock (every key read once: no event twice; hits
+    # reach the policy again afterwards)
+    out3 = storelib.run_driver(work, "TestVerif_StoreReadBusy", "readbusy", env={"VERIF_N": 30 if thorough else 6})
+    tf3 = os.path.join(out3, "store_readbusy.ndjson")
+    res3 = storelib.validate(work, tf3, "readbusy")
+    storelib.report(v, work, "C08", tf3, res3)
     cov = {"states": mc.distinct, "transitions": mc.generated, "traces_validated_against_impl": res["traces"],
            "evaluations": res["traces"], "distinct_nontrivial": n,
            "rule": "one evaluation = one schedule of atomic steps of Buffer.Add/Free (a random walk of ReadBuffer.tla with the real capacity 16, 3 readers x 14 adds) executed on the real buffer by the deterministic scheduler, or one free-running concurrent burst on one stripe; each followed by the progress probe",
            "behaviours_replayed": n, "atomic_steps_compared_with_spec": res["steps"], "segments_leaving_the_spec": res["div"],
-           "events_validated": res["lines"] + res2["lines"], "pool_recycling_histories": res2["traces"], "exhaustive": True,
+           "events_validated": res["lines"] + res2["lines"], "pool_recycling_histories": res2["traces"], "policy_busy_read_histories": res3["traces"], "exhaustive": True,
            "model_checking_runs": [{"cfg": "ReadBufferMC_fixed*.cfg", "states": mc.distinct, "transitions": mc.generated, "wall_s": round(mc.wall, 1)}],
            "samples": [{"schedule_from_TLC": vlib.read_ndjson_head(os.path.join(simdir, sorted(os.listdir(simdir))[0]), 12)},
                        {"recorded_trace_excerpt": vlib.read_ndjson_head(tf, 10)}],
@@ -45,6 +51,7 @@ def run(tier, work):
                         ["atomic-operation grain through verif yield hooks placed before each atomic load/CAS/store of Buffer.Add and Free",
                          "exhaustive for Cap 2 (3 thorough) with 2-3 readers; the real capacity is covered by replayed random walks and concurrent bursts",
                          "cache level (entry pool on): sequential histories in which a buffered hit's entry object is evicted and recycled for another key before the stripe is drained; the event applied by drainRead must belong to the key the entry holds",
+                         "cache level (Store.Get / LoadingStore.Get around Buffer.Add, drainRead, Free): 48 readers hit 5760 distinct keys once each while the policy lock is held elsewhere for 20-50 ms, then 2240 further keys are read sequentially; no entry's read event may reach the policy twice, and at least a quarter of the later hits must reach it",
                          "the lossy buffer may drop events: only invention, duplication, wedging and lack of progress are violations"],
                         time.time() - t0, len(v.violations))
     return rc
